@@ -82,7 +82,7 @@ def run_unit(job):
                                          decisions=len(e.trace)))
 
     try:
-        st = eng.run(body, maxpaths=unit.get("maxpaths"), deadline=deadline, on_path=on_path)
+        st = eng.run(body, maxpaths=unit.get("maxpaths"), deadline=deadline, on_path=on_path, path_timeout=unit.get("path_timeout", opts.get("path_timeout")))
         res["aborted"] = st["aborted"]
         res["exhausted"] = st["exhausted"]
     except core.Unsupported as u:
@@ -216,7 +216,7 @@ def main(argv=None):
     total_budget = a.budget or meta.get("budget_s", 240 if tier == "quick" else 3000)
     opts = dict(deadline=t0 + total_budget, unit_budget_s=meta.get("unit_budget_s", 60 if tier == "quick" else 600),
                 witness_every=meta.get("witness_every", 20 if tier == "quick" else 50),
-                witness_cap=meta.get("witness_cap", 6 if tier == "quick" else 12), seed=seed)
+                witness_cap=meta.get("witness_cap", 6 if tier == "quick" else 12), seed=seed, path_timeout=meta.get("path_timeout"))
     # cheapest first when the harness gives a cost hint
     order = sorted(range(len(units)), key=lambda i: (units[i].get("cost", 1), i))
     jobs = [(i, modname, units[i], opts) for i in order]
@@ -258,11 +258,11 @@ def main(argv=None):
     os.makedirs(os.path.join(HERE, "replays"), exist_ok=True)
     for (h, what), items in sorted(groups.items()):
         cand = [(r, v) for r, v in items if v["asg"] is not None][:4]
-        reqs = [dict(module=modname, h=h, params=r["unit"], asg=v["asg"]) for r, v in cand]
+        reqs = [dict(module=modname, h=h, params=r["unit"], asg=v["asg"], timeout=meta.get("native_timeout", 120)) for r, v in cand]
         resps = pool.map(reqs)
         hit = None
         for (r, v), resp in zip(cand, resps):
-            if resp.get("failed") and what in resp["failed"]:
+            if resp.get("failed") and (what in resp["failed"] or (what.startswith("did not terminate") and "native run exceeded time limit" in resp["failed"])):
                 hit = (r, v, resp)
                 break
         if hit is None:
